@@ -223,18 +223,28 @@ def check_results(ctx, results, model, impl):
     return adv_mismatch
 
 
+def translate(ctx, gens):
+    """regenerate Generated/*.v by evaluating the working tree; a translator that cannot cope is a failed obligation and the
+    run continues on the last generated constants, so that the failing-input search still happens"""
+    for name, fn, fallback in gens:
+        try:
+            consts = fn()
+            ctx.notes.append('%s: constants derived from the working tree: %r' % (name, consts))
+            ctx.obligation('translator %s derived the constants from the working tree' % name, True, 'translator', repr(consts)[:600])
+        except Exception as e:   # noqa
+            ctx.obligation('translator %s derived the constants from the working tree' % name, False, 'translator', repr(e)[:600])
+            ctx.pending_broken = {'kind': 'translator', 'what': '%s cannot derive the constants from the working tree: %r' % (name, e)}
+            if fallback:
+                fallback()
+
+
 def run(ctx):
-    consts = gen_c14.generate()
-    ctx.notes.append('generated constants: %r' % consts)
+    translate(ctx, [('gen_c14', gen_c14.generate, gen_c14.ensure_present)])
     if not ctx.coq():
-        ctx.broken_proof()
-    if ctx.thorough:
-        rc, so, se = vf.sh('timeout 1500 coqchk -silent -o -R theories FEC FEC.Properties.%s' % PID, cwd=vf.COQ, timeout=1600)
-        txt = ' '.join((so + se).split())
-        okc = rc == 0 and 'Axioms: <none>' in txt
-        ctx.obligation('coqchk -o on the .vo closure of Properties/%s: checked, no axioms' % PID, okc, 'coqchk', txt[-400:])
-        if not okc:
-            ctx.broken_proof('coqchk failed or reports axioms')
+        if not getattr(ctx, 'pending_broken', None):
+            ctx.broken_proof()
+    elif ctx.thorough and not ctx.coqchk():
+        ctx.broken_proof('coqchk rejected the compiled development')
     ctx.log('coq done'); model, impl = build(ctx); ctx.log('runners built')
     r = ctx.rng
     cases = []
@@ -266,7 +276,7 @@ def run(ctx):
                             'A case is distinct by its full input line.' % ('all 1024' if ctx.thorough else '31'))
     ctx.coverage['exhaustive'] = False
     ctx.trusted_base += ['Coq 8.16.1 kernel + vm_compute', 'extraction (ExtrOcamlBasic only), ocaml/conv.ml + c14_driver.ml',
-                         'translators/gen_c14.py (regex extraction of table and constants, shape check of CRC24Hash/EndianSwap)',
+                         'translators/gen_c14.py (constants and CRC table derived from the behaviour of the compiled framer / compiler-evaluated table, harness/cpp/c14_probe.cc)',
                          'hand transcription of OnByte/OnData/Resync/SetBuffer control flow (held by correspondence)',
                          'ASan/UBSan harness harness/cpp/c14_framer_h.cc (memory safety of the C++ itself is runtime evidence, the no_oob theorem is about the model)',
                          'harness/py/c14_common.py (independent bit-serial CRC-24Q, frame builder, comparison)']
